@@ -15,7 +15,7 @@ ASSUME \A i \in 1..Len(Logs) : TLCSet(i, <<0, "ok">>)
 TInit == Init /\ tid \in 1..Len(Logs) /\ l = 1 /\ status = "ok"
 
 \* r.outs = the strobes of every attached InterpacketTimerInterface (all must be right)
-TimerNext(r) == LET i == [start |-> r.start, speed |-> r.speed]
+TimerNext(r) == LET i == [start |-> r.start, speed |-> r.speed, rst |-> r.rst]
                     bad == {q \in 1..Len(r.outs) : OutViolation(i, r.outs[q]) # "ok"}
                 IN /\ status' = IF r.speed \notin Speeds THEN "env_speed_not_a_usb2_speed"
                                 ELSE IF bad = {} THEN "ok"
